@@ -21,6 +21,18 @@ pub fn check_fold(rec: &J) -> Verdict {
     let naming = Naming::default();
     let b = Builder { naming: &naming };
     let e = if rec["e"]["e"] == "plit" { None } else { Some(b.expr(&rec["e"], 1)) };
+    // how the reported constant is WRITTEN (its Display form, which the lint messages quote)
+    let shown = catch_unwind(AssertUnwindSafe(|| match &e {
+        Some(e) => (
+            NumericConstantFolder.visit_expression(e).ok().map(|c| c.to_string()),
+            SimpleStringConstantFolder.visit_expression(e).ok().map(|c| c.to_string()),
+        ),
+        None => (None, None),
+    }));
+    let (shown_num, shown_str) = match shown {
+        Ok(x) => x,
+        Err(p) => return Verdict::viol(format!("writing the reported constant panicked: {}", panic_msg(p)), J::Null),
+    };
     let r = catch_unwind(AssertUnwindSafe(|| match &e {
         Some(e) => (
             NumericConstantFolder.visit_expression(e).map(|c| c.value).map_err(|x| format!("{:?}", x)),
@@ -83,6 +95,20 @@ pub fn check_fold(rec: &J) -> Verdict {
             (_, Ok(sv)) => json!({"t":"str","s":jv::abstractise(sv)}),
             _ => unreachable!(),
         };
+        // the written form of the constant is what `say <expression>` prints (a string between double quotes)
+        let said = exec::run(&program(vec![vec![say(e.clone())]]), &RunCfg::default());
+        if said.is_ok() {
+            let line = said.out_text();
+            let line = line.strip_suffix('\n').unwrap_or(&line).to_string();
+            let written = match (&num, &st) {
+                (Ok(_), _) => shown_num.clone(),
+                (_, Ok(_)) => shown_str.clone().map(|t| t.strip_prefix('"').and_then(|t| t.strip_suffix('"')).map(|t| t.to_string()).unwrap_or(t)),
+                _ => None,
+            };
+            if written.as_deref() != Some(line.as_str()) {
+                return Verdict::viol(format!("the constant is written as {:?} but `say` prints {:?}", written, line), obs);
+            }
+        }
         if got.as_ref() != Some(&want) {
             return Verdict::viol(
                 format!("folder reports {} but executing the expression gives {:?} ({})", want, got, run.outcome_str()),
